@@ -107,6 +107,7 @@ class SimProcess:
             _mpctx.set_spawning_popen(None)
         kp = w.new_proc(parent, self.name)
         kp.env = dict(self.env)
+        kp.spawn_step = w.steps
         self._kp = kp
         self._sentinel = Sentinel(kp)
         w.unpickle_proc = kp
@@ -137,6 +138,9 @@ class SimProcess:
                 w._proc_exit(kp, code)
 
         kp.main = w.spawn(kp, "MainThread", main)
+        na = len([q for q in w.procs.values() if q.alive and q is not w.root])
+        if na > getattr(w, "max_alive_workers", 0):
+            w.max_alive_workers = na
         w.ev("spawn", pid=kp.pid, idx=kp.spawn_index, by=parent.pid)
         del self._target, self._args, self._kwargs
 
